@@ -23,7 +23,7 @@ from dask_array._core_utils import _calculate_new_chunksizes
 from dask_array._numpy_compat import normalize_axis_tuple
 from dask_array._utils import compute_meta, meta_from_array, validate_axis
 from dask.layers import ArrayOverlapLayer
-from dask.utils import derived_from, ensure_dict
+from dask.utils import derived_from, ensure_dict, has_keyword
 
 
 def _overlap_internal_chunks(original_chunks, axes):
@@ -282,6 +282,10 @@ class MapOverlap(ArrayExpr):
         # This rewrite currently tracks one depth spec while slicing every input.
         if len(self.arrays) != 1:
             return None
+        # A function that looks at its block's position would be told the
+        # position within the sliced input, not within the original array.
+        if has_keyword(self.func, "block_id") or has_keyword(self.func, "block_info"):
+            return None
 
         # Pad index to full length
         full_index = list(index) + [slice(None)] * (ndim - len(index))
@@ -323,6 +327,10 @@ class MapOverlap(ArrayExpr):
                 output_trim_index.append(slice(None))
             else:
                 if not self.allow_rechunk:
+                    return None
+                # Without the trim the output keeps its halos along this axis,
+                # so output positions are not input positions.
+                if not self.trim_output:
                     return None
 
                 # Expand slice by overlap depth for input
